@@ -1,2 +1,6 @@
-import SlicecVerif.Model.Basic
-import SlicecVerif.Model.Codec
+import SlicecVerif.Props.C02
+import SlicecVerif.Props.C09
+import SlicecVerif.Props.C10
+import SlicecVerif.Props.C11
+import SlicecVerif.Props.C12
+import SlicecVerif.Props.C17
